@@ -37,6 +37,24 @@ pub fn bfs<E: Clone, K: Ord + Clone>(
     events: &[E],
     max_depth: usize,
     split_depth: usize,
+    exec: impl FnMut(&[E], &mut Report, u64) -> Option<Outcome<K>>,
+) -> Stats {
+    bfs_nd(ctx, report, events, max_depth, split_depth, 0, exec)
+}
+
+/// As `bfs`, but a state reached by a history of at most `no_dedup_upto` events is expanded even
+/// if its canonical key has been seen: every history of `no_dedup_upto + 1` enabled events is
+/// executed whatever the keys say. The canonical key can only hold state the explorer knows how to
+/// observe; a defect that keeps *additional* hidden state (a cache, a memo) makes two states look
+/// equal that are not, and the de-duplication would prune exactly the history that exposes it.
+/// Short histories are therefore explored as a plain tree, and merging starts below them.
+pub fn bfs_nd<E: Clone, K: Ord + Clone>(
+    ctx: &Ctx,
+    report: &mut Report,
+    events: &[E],
+    max_depth: usize,
+    split_depth: usize,
+    no_dedup_upto: usize,
     mut exec: impl FnMut(&[E], &mut Report, u64) -> Option<Outcome<K>>,
 ) -> Stats {
     let mut seen: BTreeSet<K> = BTreeSet::new();
@@ -88,10 +106,11 @@ pub fn bfs<E: Clone, K: Ord + Clone>(
                 report.outcome(o.observed);
             }
             stats.max_depth = stats.max_depth.max(h2.len() as u64);
-            if seen.insert(o.key) {
-                if owned {
-                    stats.states += 1;
-                }
+            let fresh = seen.insert(o.key);
+            if fresh && owned {
+                stats.states += 1;
+            }
+            if fresh || h2.len() <= no_dedup_upto {
                 queue.push_back((h2, o.enabled));
             }
         }
